@@ -618,7 +618,7 @@ func (fc *FontConfigurationGotext) splitFirstLine(hyphenCache map[HyphenDictKey]
 		if nextWordBoundaries != nil {
 			// We have a word to hyphenate
 			startWord, stopWord = nextWordBoundaries[0], nextWordBoundaries[1]
-			nextWord = secondLineText[startWord:stopWord]
+			nextWord = nextWord[startWord:stopWord] // the boundaries are relative to nextWord
 			if stopWord-startWord >= hyphenLimit.Total {
 				// This word is long enough
 				space := pr.Fl(maxWidthV - firstLine.Width)
